@@ -35,6 +35,19 @@ CLAIMED = {
              note="Trusted: Coq kernel + vm; goextract translator; Go runtime timers/clock (hypothesis runtime_timer_ok); 100us clock-reading tolerance in the real-run check. No axioms."),
 }
 
+SKEL_NOTE = "Trusted: Coq kernel + vm_compute (reflection: the reachable set, ~46k control states, and the rank table are certificates accepted only by kernel-checked closure/rank checks); goextract (channel-operation / call-order / dispatch inventories regenerated from /repo every run); the skeleton Model/Skel.v is a hand-written mirror of tea.go/tty.go/standard_renderer.go control flow whose guards are COMPUTED from those inventories; Go harness (real Programs, pause points, watchdog). Assumed: Go select/channel semantics, an enabled runtime thread eventually runs, callbacks in progress return. Outside: Kill racing the first lines of Run, unrecovered panics, job-control suspend. No axioms."
+CLAIMED.update({
+ "C04": dict(design="5.3/C04", technique="Coq proof by kernel-checked inductive-invariant closure + rank certificate over the control skeleton (guards computed from the regenerated channel-operation inventory); real Programs driven through the cause x point x pending-work matrix under a watchdog, outcome Spec evaluated in Coq",
+             text="C04_bounded / C04_no_dead_end / C04_struck_stable: in every state reachable under any schedule and environment, once a cause has struck every path of runtime steps and callback returns is bounded by a kernel-checked rank (<= 60, plus 2 per further command of a batch in dispatch) and can only stop where Run has returned; C04_error_ok: the error class at return is the one the exit decision demands. Guards come from the source on every run (an unguarded channel operation breaks the closure proof and the model-level search prints the shortest deadlock path). Real runs: every cause (quit msg, Quit(), interrupt, Kill, ctx, read error, panic in callback / command, SIGINT, SIGTERM) x point (idle, in Init/Update/View/filter, batch dispatch, command hand-off, inside exec) x pending work; two-cause races; EOF alone. F1, F8, F9 were found and repaired.",
+             note=SKEL_NOTE),
+ "C05": dict(design="5.2/C05", technique="Coq proof: mode algebra over the renderer+terminal model interpreted from the GENERATED restoreTerminalState/Run call lists (restore resets every mode from any tracked state, both cursor-visibility conventions) composed with the skeleton closure (restoreTerminalState is the Run thread's last mode action on every path to a return); real Programs: final modes evaluated in Coq on the real output",
+             text="C05_restored_at_every_return (skeleton, every cause x every program point x every schedule), C05_restore_resets / C05_quit_resets (any options, any mode-command history). Real runs: random option subsets x mode histories (incl. exec) x causes x points (incl. inside the exec'd command), all 32 option subsets, start-up failure after initialisation: the mode tokens actually written leave the Coq terminal in its default modes. F4 found and repaired.",
+             note=SKEL_NOTE + " termios is exercised on a pty by C18's harness, not proved."),
+ "C13": dict(design="5.3/C13", technique="Coq proof by the same closure over the control skeleton (context cancelled and finished closed at every return, stable afterwards) + tie on the API entry points' channel operations; real Programs with callers blocked in / arriving after the end under a watchdog, Spec evaluated in Coq",
+             text="C13_released_at_return, C13_release_is_stable over every reachable state; C13_tie: Send selects on ctx, Quit/Println/Printf go through Send with no channel operation of their own, Wait is one receive from a channel made once in NewProgram and only ever closed, p.msgs is a rendezvous channel. Real runs: Wait x3, Send x2, Println x2, Printf, Quit blocked in the call when each cause strikes at each point, a second wave after the end, Wait entered before Run, start-up failures, Send before start. F2 found and repaired.",
+             note=SKEL_NOTE + " The number of callers is abstracted by Go's close/cancel semantics."),
+})
+
 def main():
     here = os.path.dirname(os.path.dirname(os.path.abspath(__file__)))
     props = [json.loads(l) for l in open(os.path.join(here, "properties.jsonl"))]
